@@ -324,6 +324,12 @@ class StreamWriter(AbstractStreamWriter):
             self._eof = True
             return
 
+        # A declared length bounds the body exactly as it does in write()
+        if chunk and self.length is not None:
+            if self.length < len(chunk):
+                chunk = chunk[: self.length]
+            self.length -= len(chunk)
+
         # No compression - send buffered headers if not yet sent
         if self._headers_buf and not self._headers_written:
             # Use helper to send headers with payload
